@@ -20,6 +20,12 @@ Three kinds of cases
          with its own payload.  Every subscription is a stream in its own right and is judged by the same
          model-free oracle as a first subscription (valid standalone file, round trip, truncation flagged);
          the recorded codec calls of one completed subscription are replayed through the Coq wrapper model.
+  scale  real cases (same runner, same oracle) at SCALE: streams of 1024..100000 chunks entering compress and
+         entering decompress (1024 x 128 B, 3000 x 1 KiB, 4096 x 256 B, 8192 x 512 B, 20000 x 10 B and random
+         counts x sizes), chunks of 128 KiB .. 3 MiB on both sides, payloads of several MiB that are
+         incompressible and that are extremely redundant (a compressed piece of a few hundred bytes inflating by
+         several MiB), gzip and zstd.  Runs of more than MODEL_MAX_STEPS[tier] chunks are not replayed through the Coq
+         model (the few-chunk run on the other side of the same case is); the oracle judges all of them.
 """
 import contextlib
 import gzip
@@ -40,7 +46,16 @@ RULE = ('toy cases: source chunk lists over a small alphabet, compressed by the 
         'text/random/mixed, sizes 0..several internal buffers (zlib 16 KiB output buffer, zstd 128 KiB block), '
         'source chunk sizes 0..400 KB, re-chunk sizes 0..300 KB cyclic with leading/trailing empty chunks; '
         'every truncation point of short streams (one chunk and two chunks each), sampled truncation points '
-        'of long ones; all 2-cut re-chunkings of short streams. non-trivial = a real-codec case with non-empty '
+        'of long ones; all 2-cut re-chunkings of short streams. scale cases (real codecs, same oracle): streams of '
+        '>= 1024 chunks into compress and (compressed bytes of hardly compressible data) into decompress - the shapes '
+        '1024x128 B, 3000x1 KiB, 4096x256 B, 8192x512 B, 20000x10 B exactly (no empty chunk in front) for each of the '
+        'four wrappers, plus random counts 1024..20000 (thorough: ..100000) x chunk sizes 1 B..16 KiB incl. 2^k and '
+        '2^k+-1, optionally an empty chunk after every chunk, two sizes in turn, a short last chunk; chunks of 128 KiB..'
+        '3 MiB on both sides with payloads of 2-5 MiB (thorough: ..24 MiB); extremely redundant payloads (zeros, short '
+        'period) of 3-10 MiB (thorough: ..64 MiB) whose compressed stream reaches decompress in one or a few pieces, '
+        'each inflating by several MiB; incompressible payloads of several MiB; sampled truncation points on some. '
+        'Scale runs longer than 4200 (quick tier) / 8250 (thorough) chunks are judged by the oracle only (the Coq model replays the few-chunk side '
+        'of the same case). non-trivial = a real-codec case with non-empty '
         'data whose compressed stream is cut into >= 2 chunks or truncated, or a toy case with >= 2 chunks on '
         'each side, or a resub case with a non-empty payload in a subscription after the first; distinct = distinct '
         'case JSON')
@@ -59,7 +74,7 @@ ASSUMPTIONS = ['H1-H3 on the codec (hypotheses of the round-trip and truncation 
                'tested for zlib/zstandard)',
                'zstd.py modelled as repaired (empty chunks are not handed to the decoder)',
                'chunks are bytes objects']
-SHARD = 300
+SHARD = 170        # 15 shards in the quick tier: the long terms of the scale cases are spread over all cores
 COQ_TARGETS = ['theories/Compress/C16Corr.vo']
 
 # ---------------------------------------------------------------------------------------------
@@ -497,6 +512,111 @@ def resub_schedule(case, n_inputs):
     return out
 
 
+# ---- SCALE: streams of >= 1024 chunks, chunks of >= 128 KiB, payloads of several MiB -----------------------
+MIB = 1 << 20
+NAMED_SHAPES = [(1024, 128), (3000, 1024), (4096, 256), (8192, 512), (20000, 10)]      # chunks x bytes per chunk
+SCALE_COUNTS = [1024, 1025, 1500, 2048, 2049, 3000, 4096, 4097, 5000, 8192, 10000, 16384, 20000]
+SCALE_COUNTS_THOROUGH = [30000, 50000, 65536, 100000]
+SCALE_CHUNK = [1, 7, 10, 64, 100, 127, 128, 129, 255, 256, 512, 1000, 1023, 1024, 1025, 2048, 4096, 8192, 16384]
+BIG_CHUNK = [131072, 131073, 200000, 262144, 262145, 524288, 1000000, MIB, MIB + 1, 2 * MIB, 3 * MIB + 17]
+MODEL_MAX_STEPS = {'quick': 4200, 'thorough': 8250}        # longest recorded run of a scale case that is replayed through the Coq model
+                              # (steps = chunks pushed); longer runs are judged by the oracle alone and the model
+                              # replays the run on the other side of the same case, which has few chunks
+
+
+def scale_case(rng, tier, codec, what, gen, size, src_sizes, re_sizes, mode='roundtrip'):
+    c = {'kind': 'real', 'codec': codec, 'mode': mode, 'scale': what,
+         'data': {'gen': gen, 'seed': rng.randrange(10 ** 6), 'size': size},
+         'src_sizes': src_sizes, 'src_lead': rng.choice([0, 0, 0, 1]), 'src_tail': rng.choice([0, 0, 0, 1, 2]),
+         're_sizes': re_sizes, 're_lead': rng.choice([0, 0, 0, 1]), 're_tail': rng.choice([0, 0, 1, 2]),
+         'max_chunks': 10 ** 7, 'model_max': MODEL_MAX_STEPS.get(tier, 4200)}
+    if mode == 'trunc_some':
+        c['trunc'] = [rng.random() for _ in range(4)] + [0.999999]
+    return c
+
+
+def gen_many(rng, tier, codec, side, shape=None):
+    """a stream of n >= 1024 chunks of sz bytes, entering compress (side 'c': the source chunks) or decompress
+    (side 'd': the compressed bytes of an incompressible / hardly compressible payload cut into sz byte chunks)"""
+    cap = (6 if tier == 'quick' else 24) * MIB
+    if shape is None:
+        while True:
+            n = rng.choice(SCALE_COUNTS + (SCALE_COUNTS_THOROUGH if tier == 'thorough' else []))
+            sz = rng.choice(SCALE_CHUNK)
+            if n * sz <= cap:
+                break
+    else:
+        n, sz = shape
+    sizes = [sz]
+    r = rng.random()
+    if shape is None and r < 0.15:
+        sizes = [sz, 0]                                    # an empty chunk after every chunk
+    elif shape is None and r < 0.3:
+        sizes = [sz, rng.choice(SCALE_CHUNK)]              # two chunk sizes in turn
+    per = sum(sizes) / len(sizes)
+    extra = rng.choice([0, 0, 0, 1, sz // 2, sz + 1]) if shape is None else 0      # a short last chunk
+    other = rng.choice([[rng.choice(BUF + BIG_CHUNK) for _ in range(rng.choice([1, 2]))], [65536], [10 ** 9]])   # the far side: few chunks
+    if side == 'c':
+        g = rng.choice(['zeros', 'rand', 'rep', 'text', 'mixed'])
+        return scale_case(rng, tier, codec, 'many-chunks-in', g, int(n * per) + extra, sizes, other)
+    # side 'd': the compressed stream must itself be n * sz bytes or more
+    g = rng.choice(['rand', 'rand', 'mixed', 'text']) if shape is None else 'rand'
+    size = (int(n * per) + extra) * {'rand': 1, 'mixed': 3, 'text': 5}[g]
+    if size > 2 * cap:
+        g, size = 'rand', int(n * per) + extra
+    return scale_case(rng, tier, codec, 'many-chunks-compressed', g, size, other, sizes,
+                      mode='roundtrip' if rng.random() < 0.8 else 'trunc_some')
+
+
+def gen_bigchunk(rng, tier, codec, gen=None):
+    """chunks of 128 KiB and more on both sides, payload of several MiB"""
+    g = gen or rng.choice(['zeros', 'rand', 'rand', 'rep', 'text', 'mixed'])
+    size = rng.choice([2 * MIB, 3 * MIB + 1, 4 * MIB, 5000000] + ([8 * MIB, 16 * MIB + 5, 24 * MIB] if tier == 'thorough' else []))
+    pick = lambda: [rng.choice(BIG_CHUNK) for _ in range(rng.choice([1, 1, 2]))]
+    return scale_case(rng, tier, codec, 'big-chunks', g, size, rng.choice([pick(), pick(), [10 ** 9]]),
+                      rng.choice([pick(), pick(), [10 ** 9]]), mode='roundtrip' if rng.random() < 0.8 else 'trunc_some')
+
+
+def gen_inflate(rng, tier, codec, gen=None):
+    """an extremely redundant payload of several MiB: its compressed stream is a few KiB, handed to decompress in
+    one piece or in a few pieces, each of which inflates by several MiB"""
+    g = gen or rng.choice(['zeros', 'rep'])
+    size = rng.choice([3 * MIB, 4 * MIB + 3, 8 * MIB, 10000000] + ([32 * MIB, 64 * MIB + 1] if tier == 'thorough' else []))
+    src = rng.choice([[10 ** 9], [MIB], [65536], [rng.choice(BIG_CHUNK)], [4096]])
+    if size // src[0] > 20000:
+        src = [65536]
+    re = rng.choice([[10 ** 9], [10 ** 9], [65536], [1000], [rng.choice([100, 300, 5000])]])
+    return scale_case(rng, tier, codec, 'one-piece-inflates-by-MiB', g, size, src, re)
+
+
+def gen_scale(rng, tier):
+    out = []
+    for codec in ('gzip', 'zstd'):
+        for shape in NAMED_SHAPES:                         # the named shapes, through all four wrappers, exactly
+            c, d = gen_many(rng, tier, codec, 'c', shape), gen_many(rng, tier, codec, 'd', shape)
+            c['src_lead'] = d['re_lead'] = 0               # (no empty chunk in front: chunk k is the k-th item)
+            out += [c, d]
+        for g in ('rand', 'zeros' if tier == 'quick' else 'text'):
+            out.append(gen_bigchunk(rng, tier, codec, g))
+        for g in ('zeros', 'rep'):
+            out.append(gen_inflate(rng, tier, codec, g))
+    n_many, n_big, n_inf = {'quick': (6, 2, 2), 'thorough': (120, 40, 30)}[tier]
+    for _ in range(n_many):
+        out.append(gen_many(rng, tier, rng.choice(['gzip', 'zstd']), rng.choice(['c', 'c', 'd'])))
+    for _ in range(n_big):
+        out.append(gen_bigchunk(rng, tier, rng.choice(['gzip', 'zstd'])))
+    for _ in range(n_inf):
+        out.append(gen_inflate(rng, tier, rng.choice(['gzip', 'zstd'])))
+    if tier == 'thorough':                                 # every named shape x every data kind into compress
+        for codec in ('gzip', 'zstd'):
+            for shape in NAMED_SHAPES:
+                for g in ('zeros', 'rand', 'rep', 'text', 'mixed'):
+                    c = gen_many(rng, tier, codec, 'c', shape)
+                    c['data']['gen'], c['src_lead'] = g, 0
+                    out.append(c)
+    return out
+
+
 def generate(rng, tier):
     n_toy, n_real, n_ta, n_ac, n_bad = {'quick': (1200, 400, 40, 10, 80), 'thorough': (15000, 6000, 800, 150, 1200),
                                         'search': (150, 60, 6, 0, 10)}[tier]
@@ -528,6 +648,13 @@ def generate(rng, tier):
                 cases.append(c)
     if tier == 'thorough':
         cases += [gen_allcuts(rng, 3) for _ in range(20)]
+    if tier != 'search':
+        # generated last (the random stream of the families above is unchanged), then spread evenly over the list
+        # so that the long Coq terms are spread over the shards, which are evaluated in parallel
+        sc = gen_scale(rng, tier)
+        step = max(1, (len(cases) - 3) // len(sc))
+        for j, c in enumerate(sc):
+            cases.insert(3 + j * (step + 1), c)
     return cases
 
 
@@ -685,21 +812,25 @@ def run_impl(case):
         return {'side': 'd', 'trace': trace_obs(log, st, inputs), 'end': ending(st)}
     # ---- real codec ----
     data = make_data(case['data'])
-    src = by_sizes(data, case['src_sizes'], case['src_lead'], case['src_tail'])
+    mc = case.get('max_chunks', 400)
+    src = by_sizes(data, case['src_sizes'], case['src_lead'], case['src_tail'], mc)
     clog, cst = run_rec(comp_op(), src)
     comp = payload(cst)
     obs = {'n_src_chunks': len(src), 'data_len': len(data), 'data_sha': hashlib.sha1(data).hexdigest(),
            'comp_len': len(comp), 'comp_end': ending(cst), 'ctrace': trace_obs(clog, cst, src),
-           'src_concat_ok': b''.join(src) == data, 'ref': ref_check(case['codec'], comp, data)}
+           'src_concat_ok': b''.join(src) == data, 'ref': ref_check(case['codec'], comp, data),
+           'max_src_chunk': max([len(x) for x in src] + [0])}
     mode = case['mode']
     if mode in ('roundtrip', 'trunc_some'):
         streams = [comp] if mode == 'roundtrip' else sorted({comp[:int(f * len(comp))] for f in case['trunc']}, key=len)
         runs = []
         for s in streams:
-            inputs = by_sizes(s, case['re_sizes'], case['re_lead'], case['re_tail'])
+            inputs = by_sizes(s, case['re_sizes'], case['re_lead'], case['re_tail'], mc)
             dlog, dst = run_rec(decomp_op(), inputs)
             out = payload(dst)
             runs.append({'len': len(s), 'n_chunks': len(inputs), 'rechunk_ok': b''.join(inputs) == s,
+                         'max_in_chunk': max([len(x) for x in inputs] + [0]),
+                         'max_emitted': max([len(e[1]) for st in dst for e in st if e[0] == 'n'] + [0]),
                          'end': ending(dst), 'out_len': len(out), 'out_sha': hashlib.sha1(out).hexdigest(),
                          'out_is_prefix': data.startswith(out), 'trace': trace_obs(dlog, dst, inputs)})
         obs['runs'] = runs[:3] if mode == 'roundtrip' else runs
@@ -843,7 +974,14 @@ def describe(cases, obs):
          'resub_fate_of_first_subscription': {}, 'resub_full_subscription_after_a_disposed_one': 0,
          'resub_max_payload': 0, 'modes': {}, 'codecs': {}, 'data_kinds': {}, 'max_data_len': 0,
          'max_comp_len': 0, 'truncation_runs': 0, 'cut_placement_runs': 0, 'toy_shapes': {},
-         'rechunks_with_trailing_empty_chunk': 0, 'max_rechunk_chunks': 0, 'incompressible_cases': 0}
+         'rechunks_with_trailing_empty_chunk': 0, 'max_rechunk_chunks': 0, 'incompressible_cases': 0,
+         'scale_cases': {}, 'scale_max_chunks_into_compress': 0, 'scale_max_chunks_into_decompress': 0,
+         'scale_streams_of_1024_or_more_chunks': {'gzip.compress': 0, 'gzip.decompress': 0, 'zstd.compress': 0,
+                                                  'zstd.decompress': 0},
+         'scale_max_chunk_into_compress': 0, 'scale_max_chunk_into_decompress': 0,
+         'scale_max_item_emitted_by_decompress': 0, 'scale_max_inflation_of_one_piece': 0,
+         'scale_incompressible_MiB_payloads': 0, 'scale_redundant_MiB_payloads': 0,
+         'scale_long_runs_replayed_through_model': 0, 'scale_long_runs_oracle_only': 0}
     for c, o in zip(cases, obs):
         d[c['kind']] += 1
         d['codecs'][c['codec']] = d['codecs'].get(c['codec'], 0) + 1
@@ -872,6 +1010,25 @@ def describe(cases, obs):
             d['incompressible_cases'] += 1
         d['truncation_runs'] += o.get('n_trunc_runs', 0) + (len(o['runs']) if c['mode'] == 'trunc_some' else 0)
         d['cut_placement_runs'] += o.get('n_cut_runs', 0)
+        if c.get('scale'):
+            key, r = '%s/%s' % (c['scale'], c['codec']), o['runs'][-1]
+            d['scale_cases'][key] = d['scale_cases'].get(key, 0) + 1
+            d['scale_max_chunks_into_compress'] = max(d['scale_max_chunks_into_compress'], o['n_src_chunks'])
+            d['scale_max_chunks_into_decompress'] = max(d['scale_max_chunks_into_decompress'], r['n_chunks'])
+            d['scale_streams_of_1024_or_more_chunks'][c['codec'] + '.compress'] += o['n_src_chunks'] >= 1024
+            d['scale_streams_of_1024_or_more_chunks'][c['codec'] + '.decompress'] += r['n_chunks'] >= 1024
+            d['scale_max_chunk_into_compress'] = max(d['scale_max_chunk_into_compress'], o['max_src_chunk'])
+            d['scale_max_chunk_into_decompress'] = max(d['scale_max_chunk_into_decompress'], r['max_in_chunk'])
+            d['scale_max_item_emitted_by_decompress'] = max(d['scale_max_item_emitted_by_decompress'], r['max_emitted'])
+            if r['max_in_chunk'] < 100000:
+                d['scale_max_inflation_of_one_piece'] = max(d['scale_max_inflation_of_one_piece'],
+                                                            r['max_emitted'] - r['max_in_chunk'])
+            d['scale_incompressible_MiB_payloads'] += o['comp_len'] >= o['data_len'] >= 2 * MIB
+            d['scale_redundant_MiB_payloads'] += o['data_len'] >= 2 * MIB and o['comp_len'] * 500 < o['data_len']
+            longest = max(o['n_src_chunks'], r['n_chunks'])
+            if longest >= 1024:
+                replayed = len(the_trace(c, o)[1]['events']) - 1 >= longest
+                d['scale_long_runs_replayed_through_model' if replayed else 'scale_long_runs_oracle_only'] += 1
         if c['mode'] == 'roundtrip':
             d['max_rechunk_chunks'] = max(d['max_rechunk_chunks'], o['runs'][0]['n_chunks'])
             if c['re_tail']:
@@ -918,6 +1075,14 @@ def the_trace(case, obs):
         # one of the subscriptions whose source completed (the generator guarantees there is one)
         done = [o for o in obs['subs'] if 'trace' in o]
         return case['side'], done[case['iseed'] % len(done)]['trace']
+    if case.get('scale'):
+        # the many-chunk side if it is short enough for the model evaluation, otherwise the other side
+        c, d = ('c', obs['ctrace']), ('d', obs['runs'][-1]['trace'])
+        first, second = (c, d) if (case['scale'] == 'many-chunks-in' or
+                                   (case['scale'] != 'many-chunks-compressed' and case['data']['seed'] % 2)) else (d, c)
+        if len(first[1]['events']) <= case.get('model_max', 4200) or len(second[1]['events']) >= len(first[1]['events']):
+            return first
+        return second
     if case['mode'] in ('roundtrip', 'trunc_some'):
         # alternate between the compress trace and a decompress trace
         if case['data']['seed'] % 3 == 0:
@@ -983,7 +1148,12 @@ CLAIM = {
             'satisfiable) and the unrepaired zstd wrapper is refuted on it. H1-H3 for zlib/zstandard are NOT proved: '
             'they are checked by differential TESTING in this check (round trips under re-chunking with chunk sizes '
             '0..several internal buffers, compressible and incompressible data, reference decoders gzip/zlib/'
-            'zstandard on the compressed stream, all truncation points of short streams). The wrapper model is tied '
+            'zstandard on the compressed stream, all truncation points of short streams; and at scale: streams of 1024 '
+            'to 20000 chunks (thorough: to 100000) into each of the four wrappers, chunks of 128 KiB to 3 MiB, '
+            'incompressible payloads of several MiB, extremely redundant payloads of 3-10 MiB (thorough: to 64 MiB) '
+            'whose compressed stream is handed to decompress in pieces that each inflate by several MiB - every '
+            'compressed result must be a valid standalone file for the reference decoders and round-trip; recorded '
+            'runs of more than 4200 (quick tier) / 8250 (thorough) chunks are judged by this test only, not replayed through the model). The wrapper model is tied '
             'to the code by running the real wrappers over a Python twin of the toy codec (event-level comparison in '
             'Coq) and by replaying the recorded calls of the real codec objects through the model.',
     'note': 'Trusted: Coq kernel+VM; hand-written model of the four wrappers (tied by correspondence only); zlib, '
